@@ -14,6 +14,12 @@ COMMON = r'''
 #ifndef VF_CAP
 #define VF_CAP 8          /* capacity of locally created containers (model bound) */
 #endif
+/* A spec may `#define VF_SEQ_EXACT <N>` before including gen.h: vf_seq find/erase then are exact (their loops have a
+   constant trip count N and no loop contract; an assertion checks that lengths stay <= N). Default: loop contracts
+   that only keep indices in range (element values after erase, first-occurrence of find are then unknown). */
+#ifndef VF_ICAP
+#define VF_ICAP 4         /* capacity of every boost::intrusive::list model (model bound) */
+#endif
 typedef void (*vf_fnptr)(void);
 typedef long vf_str;        /* opaque string id: equality only */
 #define VF_STR_EMPTY ((vf_str)0)
@@ -27,6 +33,172 @@ extern int vf_exc;          /* 0 = no exception in flight; VF_EXC_* otherwise (e
 #else
 #define VF_CANARY_POINT ((void)0)
 #endif
+/* constant-trip loops of the models, unrolled by the preprocessor (goto-instrument --dfcc --apply-loop-contracts rejects
+   writes to the counter of a loop that has no loop contract): VF_FOR_CAP(stmt using i) runs stmt for i = 0 .. VF_CAP-1 */
+#if VF_CAP > 32
+#error "VF_CAP > 32: extend VF_FOR_CAP in cxx2c/models.py"
+#endif
+#if VF_CAP > 0
+#define VF_U0(...) { const size_t i = 0; __VA_ARGS__; }
+#else
+#define VF_U0(...)
+#endif
+#if VF_CAP > 1
+#define VF_U1(...) { const size_t i = 1; __VA_ARGS__; }
+#else
+#define VF_U1(...)
+#endif
+#if VF_CAP > 2
+#define VF_U2(...) { const size_t i = 2; __VA_ARGS__; }
+#else
+#define VF_U2(...)
+#endif
+#if VF_CAP > 3
+#define VF_U3(...) { const size_t i = 3; __VA_ARGS__; }
+#else
+#define VF_U3(...)
+#endif
+#if VF_CAP > 4
+#define VF_U4(...) { const size_t i = 4; __VA_ARGS__; }
+#else
+#define VF_U4(...)
+#endif
+#if VF_CAP > 5
+#define VF_U5(...) { const size_t i = 5; __VA_ARGS__; }
+#else
+#define VF_U5(...)
+#endif
+#if VF_CAP > 6
+#define VF_U6(...) { const size_t i = 6; __VA_ARGS__; }
+#else
+#define VF_U6(...)
+#endif
+#if VF_CAP > 7
+#define VF_U7(...) { const size_t i = 7; __VA_ARGS__; }
+#else
+#define VF_U7(...)
+#endif
+#if VF_CAP > 8
+#define VF_U8(...) { const size_t i = 8; __VA_ARGS__; }
+#else
+#define VF_U8(...)
+#endif
+#if VF_CAP > 9
+#define VF_U9(...) { const size_t i = 9; __VA_ARGS__; }
+#else
+#define VF_U9(...)
+#endif
+#if VF_CAP > 10
+#define VF_U10(...) { const size_t i = 10; __VA_ARGS__; }
+#else
+#define VF_U10(...)
+#endif
+#if VF_CAP > 11
+#define VF_U11(...) { const size_t i = 11; __VA_ARGS__; }
+#else
+#define VF_U11(...)
+#endif
+#if VF_CAP > 12
+#define VF_U12(...) { const size_t i = 12; __VA_ARGS__; }
+#else
+#define VF_U12(...)
+#endif
+#if VF_CAP > 13
+#define VF_U13(...) { const size_t i = 13; __VA_ARGS__; }
+#else
+#define VF_U13(...)
+#endif
+#if VF_CAP > 14
+#define VF_U14(...) { const size_t i = 14; __VA_ARGS__; }
+#else
+#define VF_U14(...)
+#endif
+#if VF_CAP > 15
+#define VF_U15(...) { const size_t i = 15; __VA_ARGS__; }
+#else
+#define VF_U15(...)
+#endif
+#if VF_CAP > 16
+#define VF_U16(...) { const size_t i = 16; __VA_ARGS__; }
+#else
+#define VF_U16(...)
+#endif
+#if VF_CAP > 17
+#define VF_U17(...) { const size_t i = 17; __VA_ARGS__; }
+#else
+#define VF_U17(...)
+#endif
+#if VF_CAP > 18
+#define VF_U18(...) { const size_t i = 18; __VA_ARGS__; }
+#else
+#define VF_U18(...)
+#endif
+#if VF_CAP > 19
+#define VF_U19(...) { const size_t i = 19; __VA_ARGS__; }
+#else
+#define VF_U19(...)
+#endif
+#if VF_CAP > 20
+#define VF_U20(...) { const size_t i = 20; __VA_ARGS__; }
+#else
+#define VF_U20(...)
+#endif
+#if VF_CAP > 21
+#define VF_U21(...) { const size_t i = 21; __VA_ARGS__; }
+#else
+#define VF_U21(...)
+#endif
+#if VF_CAP > 22
+#define VF_U22(...) { const size_t i = 22; __VA_ARGS__; }
+#else
+#define VF_U22(...)
+#endif
+#if VF_CAP > 23
+#define VF_U23(...) { const size_t i = 23; __VA_ARGS__; }
+#else
+#define VF_U23(...)
+#endif
+#if VF_CAP > 24
+#define VF_U24(...) { const size_t i = 24; __VA_ARGS__; }
+#else
+#define VF_U24(...)
+#endif
+#if VF_CAP > 25
+#define VF_U25(...) { const size_t i = 25; __VA_ARGS__; }
+#else
+#define VF_U25(...)
+#endif
+#if VF_CAP > 26
+#define VF_U26(...) { const size_t i = 26; __VA_ARGS__; }
+#else
+#define VF_U26(...)
+#endif
+#if VF_CAP > 27
+#define VF_U27(...) { const size_t i = 27; __VA_ARGS__; }
+#else
+#define VF_U27(...)
+#endif
+#if VF_CAP > 28
+#define VF_U28(...) { const size_t i = 28; __VA_ARGS__; }
+#else
+#define VF_U28(...)
+#endif
+#if VF_CAP > 29
+#define VF_U29(...) { const size_t i = 29; __VA_ARGS__; }
+#else
+#define VF_U29(...)
+#endif
+#if VF_CAP > 30
+#define VF_U30(...) { const size_t i = 30; __VA_ARGS__; }
+#else
+#define VF_U30(...)
+#endif
+#if VF_CAP > 31
+#define VF_U31(...) { const size_t i = 31; __VA_ARGS__; }
+#else
+#define VF_U31(...)
+#endif
+#define VF_FOR_CAP(...) { VF_U0(__VA_ARGS__) VF_U1(__VA_ARGS__) VF_U2(__VA_ARGS__) VF_U3(__VA_ARGS__) VF_U4(__VA_ARGS__) VF_U5(__VA_ARGS__) VF_U6(__VA_ARGS__) VF_U7(__VA_ARGS__) VF_U8(__VA_ARGS__) VF_U9(__VA_ARGS__) VF_U10(__VA_ARGS__) VF_U11(__VA_ARGS__) VF_U12(__VA_ARGS__) VF_U13(__VA_ARGS__) VF_U14(__VA_ARGS__) VF_U15(__VA_ARGS__) VF_U16(__VA_ARGS__) VF_U17(__VA_ARGS__) VF_U18(__VA_ARGS__) VF_U19(__VA_ARGS__) VF_U20(__VA_ARGS__) VF_U21(__VA_ARGS__) VF_U22(__VA_ARGS__) VF_U23(__VA_ARGS__) VF_U24(__VA_ARGS__) VF_U25(__VA_ARGS__) VF_U26(__VA_ARGS__) VF_U27(__VA_ARGS__) VF_U28(__VA_ARGS__) VF_U29(__VA_ARGS__) VF_U30(__VA_ARGS__) VF_U31(__VA_ARGS__) }
 '''
 
 SEQ = r'''
@@ -44,36 +216,74 @@ static inline void vf_seq_%(G)s_pop_back(struct vf_seq_%(G)s* s) { __CPROVER_ass
 static inline void vf_seq_%(G)s_clear(struct vf_seq_%(G)s* s) { s->n = 0; }
 static inline struct vf_seq_%(G)s vf_seq_%(G)s_make(void) { struct vf_seq_%(G)s s; s.d = (%(T)s*)malloc(sizeof(%(T)s) * VF_CAP); __CPROVER_assume(s.d != 0); s.h = 0; s.n = 0; s.cap = VF_CAP; return s; }
 static inline void vf_seq_%(G)s_push_front(struct vf_seq_%(G)s* s, %(T)s v) { __CPROVER_assume(s->h > 0); s->h--; s->d[s->h] = v; s->n++; }
+/* find / erase: unrolled over the model capacity (precise: first occurrence; order-preserving shift) */
 static inline %(T)s* vf_seq_%(G)s_find_in(%(T)s* b, %(T)s* e, %(T)s v)
 {
   size_t cnt = (size_t)(e - b);
+#ifdef VF_SEQ_EXACT /* exact variant with a CHECKED bound (first occurrence is found): unrolled, no loop contract */
   size_t i = 0;
-  while (i < cnt && !(%(EQ)s))
-    __CPROVER_assigns(i)
-    __CPROVER_loop_invariant(i <= cnt)
-    __CPROVER_decreases(cnt - i)
-  { i++; }
+  __CPROVER_assert(cnt <= VF_SEQ_EXACT, "vf_seq find: range within VF_SEQ_EXACT");
+/*EXACT_FIND*/
   return b + i;
+#else
+  __CPROVER_assume(cnt <= VF_CAP);
+  size_t r = cnt;
+  VF_FOR_CAP(if (i < cnt && r == cnt && (%(EQ)s)) r = i;)
+  return b + r;
+#endif
 }
 static inline %(T)s* vf_seq_%(G)s_erase(struct vf_seq_%(G)s* s, %(T)s* it)
 {
-  size_t i = (size_t)(it - (s->d + s->h));
-  __CPROVER_assert(i < s->n, "vf_seq erase in range");
-  for (size_t j = i; j + 1 < s->n; j++)
-    __CPROVER_assigns(j, __CPROVER_object_whole(s->d))
-    __CPROVER_loop_invariant(i <= j && j < s->n)
-    __CPROVER_decreases(s->n - j)
-  { s->d[s->h + j] = s->d[s->h + j + 1]; }
+  size_t idx = (size_t)(it - (s->d + s->h));
+  __CPROVER_assert(idx < s->n, "vf_seq erase in range");
+#ifdef VF_SEQ_EXACT /* exact variant with a CHECKED bound (the tail is shifted element by element) */
+  __CPROVER_assert(s->n <= VF_SEQ_EXACT, "vf_seq erase: length within VF_SEQ_EXACT");
+/*EXACT_ERASE*/
+#else
+  __CPROVER_assume(s->n <= VF_CAP);
+  VF_FOR_CAP(if (idx <= i && i + 1 < s->n) s->d[s->h + i] = s->d[s->h + i + 1];)
+#endif
   s->n--;
   return it;
 }
+/* insert / erase(first,last): exact for sequences of at most VF_CAP elements (constant-bound loops: the driver unwinds
+   them completely, see check.json "unwindset" when loop contracts are applied to the units) */
+static inline %(T)s* vf_seq_%(G)s_insert(struct vf_seq_%(G)s* s, %(T)s* it, %(T)s v)
+{
+  size_t i = (size_t)(it - (s->d + s->h));
+  __CPROVER_assert(i <= s->n, "vf_seq insert position in range");
+  __CPROVER_assert(s->n <= VF_CAP, "vf_seq within model capacity");
+  __CPROVER_assume(s->h + s->n < s->cap);
+  for (size_t j = VF_CAP; j > 0; j--) { if (j <= s->n && j > i) s->d[s->h + j] = s->d[s->h + j - 1]; }
+  s->d[s->h + i] = v;
+  s->n++;
+  return s->d + s->h + i;
+}
+static inline %(T)s* vf_seq_%(G)s_erase_range(struct vf_seq_%(G)s* s, %(T)s* first, %(T)s* last)
+{
+  size_t ia = (size_t)(first - (s->d + s->h));
+  size_t ib = (size_t)(last - (s->d + s->h));
+  __CPROVER_assert(ia <= ib && ib <= s->n, "vf_seq erase range in range");
+  __CPROVER_assert(s->n <= VF_CAP, "vf_seq within model capacity");
+  size_t k = ib - ia;
+  for (size_t j = 0; j < VF_CAP; j++) { if (j >= ia && j + k < s->n) s->d[s->h + j] = s->d[s->h + j + k]; }
+  s->n -= k;
+  return first;
+}
 '''
+
+EXACT_MAX = 16
+_find = "".join("#if VF_SEQ_EXACT > %d\n  if (i == %d && i < cnt && !(%%(EQ)s)) i = %d;\n#endif\n" % (j, j, j + 1) for j in range(EXACT_MAX))
+_erase = "".join("#if VF_SEQ_EXACT > %d\n  if (idx <= %d && %d < s->n) s->d[s->h + %d] = s->d[s->h + %d];\n#endif\n" % (j + 1, j, j + 1, j, j + 1) for j in range(EXACT_MAX))
+_guard = "#if VF_SEQ_EXACT > %d\n#error \"VF_SEQ_EXACT too large for the unrolled models\"\n#endif\n" % EXACT_MAX
+SEQ = SEQ.replace("/*EXACT_FIND*/\n", _guard + _find).replace("/*EXACT_ERASE*/\n", _erase)
 
 SEQ_EXTRA = r'''
 static inline struct vf_seq_%(G)s vf_seq_%(G)s_make_n(size_t n) { struct vf_seq_%(G)s s; __CPROVER_assume(n <= VF_CAP); s.d = (%(T)s*)calloc(VF_CAP, sizeof(%(T)s)); __CPROVER_assume(s.d != 0); s.h = 0; s.n = n; s.cap = VF_CAP; return s; }
-static inline struct vf_seq_%(G)s vf_seq_%(G)s_make_fill(size_t n, %(T)s v) { struct vf_seq_%(G)s s = vf_seq_%(G)s_make(); __CPROVER_assume(n <= VF_CAP); for (size_t i = 0; i < VF_CAP; i++) { if (i < n) s.d[i] = v; } s.n = n; return s; }
-static inline void vf_seq_%(G)s_resize(struct vf_seq_%(G)s* s, size_t n) { __CPROVER_assume(s->h + n <= s->cap); for (size_t i = 0; i < VF_CAP; i++) { if (s->n + i < n) memset(&s->d[s->h + s->n + i], 0, sizeof(%(T)s)); } s->n = n; }
-static inline struct vf_seq_%(G)s vf_seq_%(G)s_copy(const struct vf_seq_%(G)s* o) { struct vf_seq_%(G)s s = vf_seq_%(G)s_make(); __CPROVER_assume(o->n <= VF_CAP); for (size_t i = 0; i < VF_CAP; i++) { if (i < o->n) s.d[i] = o->d[o->h + i]; } s.n = o->n; return s; }
+static inline struct vf_seq_%(G)s vf_seq_%(G)s_make_fill(size_t n, %(T)s v) { struct vf_seq_%(G)s s = vf_seq_%(G)s_make(); __CPROVER_assume(n <= VF_CAP); VF_FOR_CAP(if (i < n) s.d[i] = v;) s.n = n; return s; }
+static inline void vf_seq_%(G)s_resize(struct vf_seq_%(G)s* s, size_t n) { __CPROVER_assume(s->h + n <= s->cap); VF_FOR_CAP(if (s->n + i < n) memset(&s->d[s->h + s->n + i], 0, sizeof(%(T)s));) s->n = n; }
+static inline void vf_seq_%(G)s_resize_fill(struct vf_seq_%(G)s* s, size_t n, %(T)s v) { __CPROVER_assume(n <= VF_CAP && s->h + n <= s->cap); VF_FOR_CAP(if (s->n <= i && i < n) s->d[s->h + i] = v;) s->n = n; }
+static inline struct vf_seq_%(G)s vf_seq_%(G)s_copy(const struct vf_seq_%(G)s* o) { struct vf_seq_%(G)s s = vf_seq_%(G)s_make(); __CPROVER_assume(o->n <= VF_CAP); VF_FOR_CAP(if (i < o->n) s.d[i] = o->d[o->h + i];) s.n = o->n; return s; }
 '''
 
 MINMAX = {
@@ -135,6 +345,12 @@ static inline struct vf_pair_%(G)s* vf_map_%(G)s_begin(struct vf_map_%(G)s* s) {
 static inline struct vf_pair_%(G)s* vf_map_%(G)s_end(struct vf_map_%(G)s* s) { return s->e + s->n; }
 static inline struct vf_pair_%(G)s* vf_map_%(G)s_find(struct vf_map_%(G)s* s, %(A)s k)
 {
+#ifdef VF_EXACT_MODELS /* exact for every map of at most VF_CAP entries: constant-bound loop, unwound completely */
+  size_t r = s->n;
+  __CPROVER_assert(s->n <= VF_CAP, "vf_map within model capacity");
+  for (size_t i = 0; i < VF_CAP; i++) { if (i < s->n && r == s->n && s->e[i].first == k) r = i; }
+  return s->e + r;
+#else
   size_t i = 0;
   while (i < s->n && !(s->e[i].first == k))
     __CPROVER_assigns(i)
@@ -142,6 +358,7 @@ static inline struct vf_pair_%(G)s* vf_map_%(G)s_find(struct vf_map_%(G)s* s, %(
     __CPROVER_decreases(s->n - i)
   { i++; }
   return s->e + i;
+#endif
 }
 static inline size_t vf_map_%(G)s_count(struct vf_map_%(G)s* s, %(A)s k) { return vf_map_%(G)s_find(s, k) != s->e + s->n; }
 static inline _Bool vf_map_%(G)s_contains(struct vf_map_%(G)s* s, %(A)s k) { return vf_map_%(G)s_find(s, k) != s->e + s->n; }
@@ -162,12 +379,18 @@ static inline void vf_map_%(G)s_insert(struct vf_map_%(G)s* s, %(A)s k, %(B)s v)
   struct vf_pair_%(G)s* p = vf_map_%(G)s_find(s, k);
   if (p == s->e + s->n) { __CPROVER_assume(s->n < s->cap); p->first = k; p->second = v; s->n++; }
 }
+static inline void vf_map_%(G)s_insert_pair(struct vf_map_%(G)s* s, struct vf_pair_%(G)s v) { vf_map_%(G)s_insert(s, v.first, v.second); }
 static inline void vf_map_%(G)s_set(struct vf_map_%(G)s* s, %(A)s k, %(B)s v) { *vf_map_%(G)s_index(s, k) = v; }
 static inline size_t vf_map_%(G)s_erase(struct vf_map_%(G)s* s, %(A)s k)
 {
   struct vf_pair_%(G)s* p = vf_map_%(G)s_find(s, k);
   if (p == s->e + s->n) return 0;
   size_t i = (size_t)(p - s->e);
+#ifdef VF_EXACT_MODELS
+  for (size_t j = 0; j + 1 < VF_CAP; j++) { if (j >= i && j + 1 < s->n) s->e[j] = s->e[j + 1]; }
+  s->n--;
+  return 1;
+#else
   for (size_t j = i; j + 1 < s->n; j++)
     __CPROVER_assigns(j, __CPROVER_object_whole(s->e))
     __CPROVER_loop_invariant(i <= j && j < s->n)
@@ -175,6 +398,66 @@ static inline size_t vf_map_%(G)s_erase(struct vf_map_%(G)s* s, %(A)s k)
   { s->e[j] = s->e[j + 1]; }
   s->n--;
   return 1;
+#endif
+}
+static inline struct vf_pair_%(G)s* vf_map_%(G)s_erase_it(struct vf_map_%(G)s* s, struct vf_pair_%(G)s* it)
+{
+  __CPROVER_assert(it != s->e + s->n, "vf_map erase(iterator): not end()");
+  vf_map_%(G)s_erase(s, it->first);
+  return it;
+}
+'''
+
+IHOOK ="struct vf_ihook { _Bool linked; }; /* boost::intrusive::list_member_hook<>: only is_linked() is observable */\n"
+
+ILIST = r'''
+/* ---- model of boost::intrusive::list<%(S)s, member_hook<.., &%(S)s::%(H)s>>: the linked elements in list order are
+ * d[0..n); an element is in (some) list of this type iff its hook says linked (safe_link mode). Capacity VF_ICAP.
+ * Loops run over the constant capacity (unwound completely): order-preserving and exact, no loop contracts.        ---- */
+struct vf_ilist_%(G)s { size_t n; %(T)s* d[VF_ICAP]; };
+/*FUNCS*/
+static inline size_t vf_ilist_%(G)s_size(const struct vf_ilist_%(G)s* l) { return l->n; }
+static inline _Bool vf_ilist_%(G)s_empty(const struct vf_ilist_%(G)s* l) { return l->n == 0; }
+static inline %(T)s** vf_ilist_%(G)s_begin(struct vf_ilist_%(G)s* l) { return &l->d[0]; }
+static inline %(T)s** vf_ilist_%(G)s_end(struct vf_ilist_%(G)s* l) { return &l->d[l->n]; }
+static inline %(T)s* vf_ilist_%(G)s_front(struct vf_ilist_%(G)s* l) { __CPROVER_assert(l->n > 0, "vf_ilist front on non-empty"); return l->d[0]; }
+static inline %(T)s* vf_ilist_%(G)s_back(struct vf_ilist_%(G)s* l) { __CPROVER_assert(l->n > 0, "vf_ilist back on non-empty"); return l->d[l->n - 1]; }
+static inline void vf_ilist_%(G)s_push_back(struct vf_ilist_%(G)s* l, %(T)s* e)
+{
+  __CPROVER_assert(!e->%(H)s.linked, "vf_ilist push_back: node not already linked (boost safe-link precondition)");
+  __CPROVER_assume(l->n < VF_ICAP); /* model capacity */
+  l->d[l->n] = e; l->n++; e->%(H)s.linked = 1;
+}
+static inline void vf_ilist_%(G)s_push_front(struct vf_ilist_%(G)s* l, %(T)s* e)
+{
+  __CPROVER_assert(!e->%(H)s.linked, "vf_ilist push_front: node not already linked (boost safe-link precondition)");
+  __CPROVER_assume(l->n < VF_ICAP); /* model capacity */
+  for (size_t j = VF_ICAP - 1; j > 0; j--) { if (j <= l->n) l->d[j] = l->d[j - 1]; }
+  l->d[0] = e; l->n++; e->%(H)s.linked = 1;
+}
+static inline %(T)s** vf_ilist_%(G)s_iterator_to(struct vf_ilist_%(G)s* l, %(T)s* e)
+{
+  size_t i = l->n;
+  for (size_t j = VF_ICAP; j > 0; j--) { if (j - 1 < l->n && l->d[j - 1] == e) i = j - 1; }
+  __CPROVER_assert(i < l->n, "vf_ilist iterator_to: element is linked in this list");
+  return &l->d[i];
+}
+static inline %(T)s** vf_ilist_%(G)s_erase(struct vf_ilist_%(G)s* l, %(T)s** it)
+{
+  size_t i = (size_t)(it - &l->d[0]);
+  __CPROVER_assert(i < l->n, "vf_ilist erase: valid iterator");
+  l->d[i]->%(H)s.linked = 0;
+  for (size_t j = 0; j + 1 < VF_ICAP; j++) { if (i <= j && j + 1 < l->n) l->d[j] = l->d[j + 1]; }
+  l->n--;
+  return it;
+}
+static inline void vf_ilist_%(G)s_erase_elem(struct vf_ilist_%(G)s* l, %(T)s* e) { vf_ilist_%(G)s_erase(l, vf_ilist_%(G)s_iterator_to(l, e)); }
+static inline void vf_ilist_%(G)s_pop_front(struct vf_ilist_%(G)s* l) { __CPROVER_assert(l->n > 0, "vf_ilist pop_front on non-empty"); vf_ilist_%(G)s_erase(l, &l->d[0]); }
+static inline void vf_ilist_%(G)s_pop_back(struct vf_ilist_%(G)s* l) { __CPROVER_assert(l->n > 0, "vf_ilist pop_back on non-empty"); l->n--; l->d[l->n]->%(H)s.linked = 0; }
+static inline void vf_ilist_%(G)s_clear(struct vf_ilist_%(G)s* l)
+{
+  for (size_t j = 0; j < VF_ICAP; j++) { if (j < l->n) l->d[j]->%(H)s.linked = 0; }
+  l->n = 0;
 }
 '''
 
@@ -196,6 +479,10 @@ def struct_defs(tm):
                     [t[7:]] if is_structy(t) else []))
     for tag, t in tm.seq_insts.items():
         out.append(("vf_seq_" + tag, (SEQ % {"G": tag, "T": t, "EQ": ""}).split("/*FUNCS*/")[0], []))
+    if getattr(tm, "need_ihook", False) or tm.ilist_insts:
+        out.append(("vf_ihook", IHOOK, []))
+    for tag, (t, hook) in tm.ilist_insts.items():
+        out.append(("vf_ilist_" + tag, (ILIST % {"G": tag, "T": t, "S": t[7:], "H": hook}).split("/*FUNCS*/")[0], []))
     for tag, t in tm.set_insts.items():
         out.append(("vf_set_" + tag, (SET % {"G": tag, "T": t}).split("/*FUNCS*/")[0], []))
     for tag, (a, b) in tm.map_insts.items():
@@ -214,6 +501,8 @@ def gen_funcs(tm, lib):
         out.append((SET % {"G": tag, "T": t}).split("/*FUNCS*/")[1])
     for tag, (a, b) in tm.map_insts.items():
         out.append((MAP % {"G": tag, "A": a, "B": b}).split("/*FUNCS*/")[1])
+    for tag, (t, hook) in tm.ilist_insts.items():
+        out.append((ILIST % {"G": tag, "T": t, "S": t[7:], "H": hook}).split("/*FUNCS*/")[1])
     for kind, ct in sorted(lib.minmax):
         out.append(MINMAX[kind] % {"T": ct, "G": ident(ct)})
     return "".join(out)
